@@ -40,6 +40,29 @@ def run(ctx):
     c01.r4(_MultiAlias(ctx, {"C01.R4": "C07.R7"}))
 
 
+def chunk_error_closes(ctx, rid):
+    """A chunked body is parsed lazily, while the *application* reads wsgi.input. When the chunk parser raises (invalid chunk
+    size, missing chunk terminator, bad trailer, premature EOF, a timeout thrown into the read) the generator is dead and the
+    position in the stream is lost -- but the exception goes to the application, which may well answer it with an ordinary
+    response (frameworks catch OSError on body reads; the chunk errors are IOErrors). Unless the request is marked must-close
+    there and then, the connection goes back to keep-alive, the drain of Parser.__next__ sees a finished generator ("end of
+    body"), and the rest of the malformed body is parsed as the next request. Rule: an exception leaving next(self.parser) in
+    ChunkedReader.read lands in a clause that calls req.force_close() and re-raises."""
+    repo = ctx.repo
+    from .c05 import _landing
+    f = ctx.fn(repo.func(BODY + ".ChunkedReader.read"))
+    nxc = [c for c in walk_own(f.node) if isinstance(c, ast.Call) and isinstance(c.func, ast.Name) and c.func.id == "next"]
+    ctx.need(nxc, rid + ": ChunkedReader.read never advances its parser")
+    for cls_q in ("gunicorn.http.errors.InvalidChunkSize", "gunicorn.http.errors.ChunkMissingTerminator", "gunicorn.http.errors.NoMoreData", "gunicorn.http.errors.InvalidHeader"):
+        h = _landing(repo, f, nxc[0], cls_q, follow_reraise=False)
+        closes = h is not None and any(isinstance(c, ast.Call) and isinstance(c.func, ast.Attribute) and c.func.attr == "force_close" for c in ast.walk(h))
+        reraises = h is not None and h.body and isinstance(h.body[-1], ast.Raise) and h.body[-1].exc is None
+        ctx.check(rid, closes and reraises, key(f, "chunk-error-closes|" + cls_q.rsplit(".", 1)[-1]), site(f, nxc[0]),
+                  "%s raised by the chunk parser while the application reads wsgi.input does not mark the request must-close: an application that answers the failed read with a normal "
+                  "response keeps the connection alive, and the rest of the malformed body is parsed as the next request (request smuggling through every chunk spelling the parser rejects)" % cls_q.rsplit(".", 1)[-1],
+                  "force_close() and re-raise")
+
+
 def r5(ctx):
     """the http layer reads the fill level of its buffers through tell(): a BytesIO created with initial
     content has position 0, so the next write() overwrites it"""
@@ -253,6 +276,7 @@ def r3(ctx):
     okk = any(isinstance(s, ast.Assign) and any(tail(t) == "parser" for t in s.targets) and const(s.value, NO) is None for h in hs for s in h.body) and \
         any(isinstance(s, (ast.Break, ast.Return)) for h in hs for s in h.body)
     ctx.check("C07.R3", okk, key(f, "finish-once"), site(f), "on StopIteration the chunk parser is not retired (self.parser = None; break): EOF would not be sticky", "parser = None on StopIteration")
+    chunk_error_closes(ctx, "C07.R3")
     # parse_chunk_size: zero chunk -> trailers parsed -> (0, None)
     f = ctx.fn(repo.func(BODY + ".ChunkedReader.parse_chunk_size"))
     g = f.cfg
